@@ -84,6 +84,7 @@ def _decode_str(buffer: "_Buffer", type: "ref:StringType") -> "seq[char]":
                                lambda i: val_bits(buffer.gbits, old(buffer.bitaddr) + 32 + 8 * i, 8) == d_chars(v)[i]),
                     result == d_chars(v) and buffer.bitaddr == old(buffer.bitaddr) + 32 + 8 * size(d_chars(v))))
     ensures(buffer.bitaddr <= 8 * arr_len(buffer.buffer) or buffer.bitaddr == old(buffer.bitaddr) + 32)
+    ensures(buffer.bitaddr >= old(buffer.bitaddr) + 32 and buffer.bitaddr <= 8 * arr_len(buffer.buffer))     # C16: progress, in bounds
     option("loop0_locals", {"chars": "seq[int]"})
     loop(0, over="range(len)",
          invariant=lambda it: buffer.bitaddr == old(buffer.bitaddr) + 32 + 8 * it and size(chars) == it
@@ -102,10 +103,16 @@ def _decode_array(buffer: "_Buffer", fcp: "ref:FcpV2", type: "ref:ArrayType") ->
     no_raise_if(conforms(fcp, type, v) and starts(fcp, type, buffer.gbits, buffer.bitaddr, v))
     ensures(implies(conforms(fcp, type, v) and starts(fcp, type, buffer.gbits, old(buffer.bitaddr), v),
                     result == d_list(v) and buffer.bitaddr == old(buffer.bitaddr) + len(wire(fcp, type, v))))
+    # C16: a normal return consumed at least the minimal image and nothing outside the input
+    ensures(buffer.bitaddr >= old(buffer.bitaddr) + type.size * min_wire(fcp, type.underlying_type))
+    ensures(buffer.bitaddr <= 8 * arr_len(buffer.buffer) or buffer.bitaddr == old(buffer.bitaddr))
     ghost_arg("_decode", v=d_list(v)[it])
     option("loop0_locals", {"data": "seq[dyn]"})
     loop(0, over="range(type.size)",
-         invariant=lambda it: buffer.bitaddr >= old(buffer.bitaddr) and implies(
+         invariant=lambda it: buffer.bitaddr >= old(buffer.bitaddr)
+         and buffer.bitaddr >= old(buffer.bitaddr) + it * min_wire(fcp, type.underlying_type)
+         and (buffer.bitaddr <= 8 * arr_len(buffer.buffer) or buffer.bitaddr == old(buffer.bitaddr))
+         and implies(
              conforms(fcp, type, v) and starts(fcp, type, buffer.gbits, old(buffer.bitaddr), v),
              buffer.bitaddr == old(buffer.bitaddr) + len(wire_elems(fcp, type.underlying_type, d_list(v), it))
              and len(data) == it and forall(0, it, lambda i: data[i] == d_list(v)[i])))
@@ -123,10 +130,20 @@ def _decode_dynamic_array(buffer: "_Buffer", fcp: "ref:FcpV2", type: "ref:Dynami
     no_raise_if(conforms(fcp, type, v) and starts(fcp, type, buffer.gbits, buffer.bitaddr, v))
     ensures(implies(conforms(fcp, type, v) and starts(fcp, type, buffer.gbits, old(buffer.bitaddr), v),
                     result == d_list(v) and buffer.bitaddr == old(buffer.bitaddr) + size(wire(fcp, type, v))))
+    # C16: a normal return consumed the count and at least the minimal image of every element, all inside the input: the number
+    # of elements (= the work done) is bounded by the input length whenever the element type occupies at least one bit
+    ensures(buffer.bitaddr >= old(buffer.bitaddr) + 32 + size(result) * min_wire(fcp, type.underlying_type))
+    ensures(buffer.bitaddr >= old(buffer.bitaddr) + 32 and buffer.bitaddr <= 8 * arr_len(buffer.buffer))
+    # C16 "work bounded by the input length": no more elements than input bits (fails for zero-width element types: KF-F23)
+    ensures(size(result) <= 8 * arr_len(buffer.buffer))
     ghost_arg("_decode", v=d_list(v)[it])
     option("loop0_locals", {"data": "seq[dyn]"})
     loop(0, over="range(len)",
-         invariant=lambda it: buffer.bitaddr >= old(buffer.bitaddr) and implies(
+         invariant=lambda it: buffer.bitaddr >= old(buffer.bitaddr) + 32
+         and buffer.bitaddr >= old(buffer.bitaddr) + 32 + it * min_wire(fcp, type.underlying_type)
+         and (min_wire(fcp, type.underlying_type) <= 0 or buffer.bitaddr >= old(buffer.bitaddr) + 32 + it)
+         and buffer.bitaddr <= 8 * arr_len(buffer.buffer) and size(data) == it
+         and implies(
              conforms(fcp, type, v) and starts(fcp, type, buffer.gbits, old(buffer.bitaddr), v),
              buffer.bitaddr == old(buffer.bitaddr) + 32 + size(wire_elems(fcp, type.underlying_type, d_list(v), it))
              and size(data) == it and forall(0, it, lambda i: data[i] == d_list(v)[i])))
@@ -144,6 +161,7 @@ def _decode_optional(buffer: "_Buffer", fcp: "ref:FcpV2", type: "ref:OptionalTyp
     no_raise_if(conforms(fcp, type, v) and starts(fcp, type, buffer.gbits, buffer.bitaddr, v))
     ensures(implies(conforms(fcp, type, v) and starts(fcp, type, buffer.gbits, old(buffer.bitaddr), v),
                     result == v and buffer.bitaddr == old(buffer.bitaddr) + len(wire(fcp, type, v))))
+    ensures(buffer.bitaddr >= old(buffer.bitaddr) + 8 and buffer.bitaddr <= 8 * arr_len(buffer.buffer))     # C16
     ghost_arg("_decode", v=v)
 
 
@@ -159,11 +177,16 @@ def _decode_struct(buffer: "_Buffer", fcp: "ref:FcpV2", name: "str") -> "dyn":
     ensures(implies(conforms_struct(fcp, name, v)
                     and starts_struct(fcp, name, buffer.gbits, old(buffer.bitaddr), v),
                     result == v and buffer.bitaddr == old(buffer.bitaddr) + len(wire_struct(fcp, name, v))))
+    ensures(buffer.bitaddr >= old(buffer.bitaddr) + min_fields(fcp, sorted_fields(struct_of(fcp, name)), len(sorted_fields(struct_of(fcp, name)))))
+    ensures(buffer.bitaddr <= 8 * arr_len(buffer.buffer) or buffer.bitaddr == old(buffer.bitaddr))     # C16
     ghost_arg("_decode", v=dyn_get(v, field.name))
-    option("no_unfold", ["conforms", "starts", "wire", "wf_type"])
+    option("no_unfold", ["conforms", "starts", "wire", "wf_type", "min_wire"])
     option("loop0_locals", {"data": "dyn"})
     loop(0, over="sorted(struct.fields, key=lambda field: field.field_id)",
-         invariant=lambda it: buffer.bitaddr >= old(buffer.bitaddr) and d_is_dict(data) and implies(
+         invariant=lambda it: buffer.bitaddr >= old(buffer.bitaddr)
+         and buffer.bitaddr >= old(buffer.bitaddr) + min_fields(fcp, sorted_fields(struct_of(fcp, name)), it)
+         and (buffer.bitaddr <= 8 * arr_len(buffer.buffer) or buffer.bitaddr == old(buffer.bitaddr))
+         and d_is_dict(data) and implies(
              conforms_struct(fcp, name, v) and starts_struct(fcp, name, buffer.gbits, old(buffer.bitaddr), v),
              buffer.bitaddr == old(buffer.bitaddr) + len(wire_fields(fcp, sorted_fields(struct_of(fcp, name)), v, it))
              and forall("str", lambda key: dyn_get(data, key) == ite(
@@ -182,6 +205,9 @@ def _decode(buffer: "_Buffer", fcp: "ref:FcpV2", type: "ref:Type") -> "dyn":
     ensures(implies(conforms(fcp, type, v) and starts(fcp, type, buffer.gbits, old(buffer.bitaddr), v),
                     result == v and buffer.bitaddr == old(buffer.bitaddr) + len(wire(fcp, type, v))))
     ghost_arg("_decode_str", v=v)
+    option("opaque", ["wire_struct", "conforms_struct", "starts_struct", "wf_struct"])
+    ensures(buffer.bitaddr >= old(buffer.bitaddr) + min_wire(fcp, type))                                # C16: progress
+    ensures(buffer.bitaddr <= 8 * arr_len(buffer.buffer) or buffer.bitaddr == old(buffer.bitaddr))      # C16: in bounds
     ghost_arg("_decode_struct", v=v)
     ghost_arg("_decode_array", v=v)
     ghost_arg("_decode_dynamic_array", v=v)
@@ -204,5 +230,8 @@ def decode(fcp: "ref:FcpV2", name: "str", data: "arr") -> "dyn":
     may_raise(Exception)
     no_raise_if(conforms_struct(fcp, name, v) and starts_struct(fcp, name, bits_of_bytes(data), 0, v))
     ensures(implies(conforms_struct(fcp, name, v) and starts_struct(fcp, name, bits_of_bytes(data), 0, v), result == v))
+    # C16: decode returns only if the input holds at least the minimal image of the struct (for EVERY input, no ghost value)
+    ensures(min_fields(fcp, sorted_fields(struct_of(fcp, name)), len(sorted_fields(struct_of(fcp, name)))) <= 8 * arr_len(data))
+    option("opaque", ["wire_struct", "conforms_struct", "starts_struct", "wf_struct"])
     ghost_arg("_decode_struct", v=v)
     lemma_before("_decode_struct", unpack_rep(data))
